@@ -251,12 +251,244 @@ fn run_rr_di(c: &RrCase) -> R {
 }
 
 // ---------------------------------------------------------------------------------------------
+// (coverage audit) RangeReader / RangeWriter histories: read - seek - read on ONE object, reset, seek_in_range,
+// DataInput calls interleaved with Read calls; writer: write - seek back - overwrite
+
+#[derive(Serialize, Deserialize, Hash, Clone, Debug, PartialEq)]
+pub enum RgOp {
+    Read(usize),
+    SeekStart(u64),
+    SeekCur(i64),
+    SeekEnd(i64),
+    Reset,
+    SeekInRange(u64),
+    /// DataInput::read_u16
+    U16,
+    /// DataInput::skip
+    Skip(usize),
+    /// writer only
+    Write(usize),
+}
+
+#[derive(Serialize, Deserialize, Hash, Clone, Debug)]
+pub struct RgCase {
+    ctor: String,
+    off: u64,
+    len: u64,
+    ops: Vec<RgOp>,
+}
+
+fn gen_rgr(tier: Tier, f: &mut dyn FnMut(RgCase) -> bool) {
+    let ops = vec![
+        RgOp::Read(1),
+        RgOp::Read(4),
+        RgOp::SeekStart(0),
+        RgOp::SeekStart(2),
+        RgOp::SeekCur(-1),
+        RgOp::SeekCur(2),
+        RgOp::SeekEnd(-1),
+        RgOp::SeekEnd(1),
+        RgOp::Reset,
+        RgOp::SeekInRange(1),
+        RgOp::U16,
+        RgOp::Skip(2),
+    ];
+    let depth = tier.pick(3, 4);
+    for ctor in ["new_and_seek(Cursor)", "range::reader(File)"] {
+        // inside the source, at its start, reaching past its end, empty
+        for (off, len) in [(3u64, 6u64), (0, 12), (8, 9), (5, 0)] {
+            if !all_strings(&ops, depth, &mut |o| f(RgCase { ctor: ctor.to_string(), off, len, ops: o.to_vec() })) {
+                return;
+            }
+        }
+    }
+}
+
+fn run_rgr_on<Rd: Read + Seek>(mut r: RangeReader<Rd>, c: &RgCase) -> R {
+    let data = source(FILE_LEN);
+    let n = FILE_LEN as u64;
+    let end = c.off + c.len;
+    // position relative to the range start, 0..=len
+    let mut rel = 0u64;
+    let past = if end > n { "range_past_eof" } else { "range_inside" };
+    for (k, op) in c.ops.iter().enumerate() {
+        let abs = c.off + rel;
+        // bytes the source really has between the position and the range end
+        let avail = &data[abs.min(n) as usize..end.min(n).max(abs.min(n)) as usize];
+        match op {
+            RgOp::Read(sz) => {
+                let mut buf = vec![0xAAu8; *sz];
+                let m = r.read(&mut buf).map_err(|e| bad("read_err", past, format!("op #{k} read({sz}) at range offset {rel}: {e}")))?;
+                ensure!(m <= *sz && m <= avail.len() && buf[..m] == avail[..m], "range", format!("history/wrong_bytes/{past}"), "op #{k} read({sz}) at range offset {rel} of range ({}, {}) after {:?}: got {} want a prefix of {}", c.off, c.len, &c.ops[..k], brief(&buf[..m]), brief(avail));
+                ensure!(m > 0 || avail.is_empty(), "range", format!("history/premature_eof/{past}"), "op #{k} read({sz}) at range offset {rel} returned 0 with {} bytes left in the range", avail.len());
+                rel += m as u64;
+            }
+            RgOp::SeekStart(_) | RgOp::SeekCur(_) | RgOp::SeekEnd(_) => {
+                let (sf, target) = match op {
+                    RgOp::SeekStart(p) => (SeekFrom::Start(*p), *p as i64),
+                    RgOp::SeekCur(d) => (SeekFrom::Current(*d), rel as i64 + d),
+                    RgOp::SeekEnd(d) => (SeekFrom::End(*d), c.len as i64 + d),
+                    _ => unreachable!(),
+                };
+                let want = target.clamp(0, c.len as i64) as u64;
+                let p = r.seek(sf).map_err(|e| bad("read_err", past, format!("op #{k} seek({:?}): {e}", sf)))?;
+                ensure!(p == want, "range", format!("history/seek_position/{past}"), "op #{k} seek({:?}) at range offset {rel} of a {}-byte range returned {p}, want {want} (range-relative, clamped) after {:?}", sf, c.len, &c.ops[..k]);
+                rel = want;
+            }
+            RgOp::Reset => {
+                r.reset().map_err(|e| bad("read_err", past, format!("op #{k} reset: {e}")))?;
+                rel = 0;
+            }
+            RgOp::SeekInRange(p) => match r.seek_in_range(*p) {
+                Ok(g) => {
+                    ensure!(*p <= c.len && g == *p, "range", format!("history/seek_position/{past}"), "op #{k} seek_in_range({p}) in a {}-byte range returned {g}", c.len);
+                    rel = *p;
+                }
+                // refused (the position is not inside the range): nothing moves
+                Err(_) => ensure!(*p >= c.len, "read_err", past, "op #{k} seek_in_range({p}) refused in a {}-byte range", c.len),
+            },
+            RgOp::U16 => {
+                let left = c.len - rel;
+                match r.read_u16() {
+                    Ok(g) => {
+                        ensure!(left >= 2 && avail.len() >= 2 && g == u16::from_le_bytes([avail[0], avail[1]]), "range", format!("history/wrong_bytes/{past}"), "op #{k} read_u16 at range offset {rel} = {g:#x} with {} bytes available ({}) after {:?}", avail.len(), brief(avail), &c.ops[..k]);
+                        rel += 2;
+                    }
+                    Err(e) => {
+                        ensure!(avail.len() < 2, "read_err", past, "op #{k} read_u16 at range offset {rel} with {} bytes available: {e}", avail.len());
+                        if left >= 2 {
+                            // the range reaches past the end of the source: read_exact may have consumed the tail
+                            return Ok(Outcome::pass("history/source_shorter_than_range"));
+                        }
+                    }
+                }
+            }
+            RgOp::Skip(sz) => {
+                let left = c.len - rel;
+                match DataInput::skip(&mut r, *sz) {
+                    Ok(()) => {
+                        ensure!(left >= *sz as u64, "range", format!("history/skip_past_end/{past}"), "op #{k} skip({sz}) succeeded with {left} bytes left in the range");
+                        rel += *sz as u64;
+                    }
+                    Err(e) => {
+                        ensure!(avail.len() < *sz, "read_err", past, "op #{k} skip({sz}) at range offset {rel} with {} bytes available: {e}", avail.len());
+                        if left >= *sz as u64 {
+                            return Ok(Outcome::pass("history/source_shorter_than_range"));
+                        }
+                    }
+                }
+            }
+            RgOp::Write(_) => {}
+        }
+        ensure!(r.current_position() == c.off + rel && DataInput::position(&r) == Some(rel) && r.remaining() == c.len - rel && r.is_at_end() == (rel == c.len), "range", format!("history/accessors/{past}"), "after op #{k} {:?}: current_position() = {}, position() = {:?}, remaining() = {} — the history {:?} leaves the reader at range offset {rel} of {}", op, r.current_position(), DataInput::position(&r), r.remaining(), &c.ops[..=k], c.len);
+    }
+    let abs = c.off + rel;
+    let want = &data[abs.min(n) as usize..end.min(n).max(abs.min(n)) as usize];
+    let got = drain(&mut r, 5, 200).map_err(|e| bad("read_err", past, e))?;
+    ensure!(got == want, "range", format!("history/rest/{past}"), "after {:?} the rest of range ({}, {}) reads {} want {}", c.ops, c.off, c.len, brief(&got), brief(want));
+    Ok(if c.ops.is_empty() { Outcome::trivial("empty-history") } else { Outcome::pass(&format!("history/{past}")) })
+}
+
+fn run_rgr(c: &RgCase) -> R {
+    let data = source(FILE_LEN);
+    match c.ctor.as_str() {
+        "new_and_seek(Cursor)" => run_rgr_on(must(RangeReader::new_and_seek(Cursor::new(data), c.off, c.len), "construct", "history")?, c),
+        _ => {
+            let t = TmpFile::with_bytes("rgh", &data);
+            run_rgr_on(must(zipora::io::range::reader(File::open(&t.0).expect("open"), c.off, c.len), "construct", "history")?, c)
+        }
+    }
+}
+
+fn gen_rgw(tier: Tier, f: &mut dyn FnMut(RgCase) -> bool) {
+    let ops = vec![RgOp::Write(1), RgOp::Write(3), RgOp::Write(7), RgOp::SeekStart(0), RgOp::SeekStart(2), RgOp::SeekCur(-1), RgOp::SeekCur(2), RgOp::SeekEnd(-1), RgOp::SeekEnd(0)];
+    let depth = tier.pick(4, 5);
+    for ctor in ["range::writer", "new(pre-positioned)", "with_range(pre-positioned)"] {
+        for (off, len) in [(3u64, 5u64), (0, 12), (10, 5)] {
+            if !all_strings(&ops, depth, &mut |o| {
+                // the constructors without Seek bounds are only exercised without seeks
+                if ctor != "range::writer" && o.iter().any(|x| !matches!(x, RgOp::Write(_))) {
+                    return true;
+                }
+                f(RgCase { ctor: ctor.to_string(), off, len, ops: o.to_vec() })
+            }) {
+                return;
+            }
+        }
+    }
+}
+
+fn run_rgw(c: &RgCase) -> R {
+    let base = Cursor::new(vec![0xEEu8; FILE_LEN]);
+    let mut w = match c.ctor.as_str() {
+        "range::writer" => must(zipora::io::range::writer(base, c.off, c.len), "construct", "range_writer")?,
+        "new(pre-positioned)" => {
+            let mut b = base;
+            b.set_position(c.off);
+            RangeWriter::new(b, c.off, c.len)
+        }
+        _ => {
+            let mut b = base;
+            b.set_position(c.off);
+            RangeWriter::with_range(b, c.off, c.off + c.len)
+        }
+    };
+    ensure!(w.start_position() == c.off && w.end_position() == c.off + c.len && w.range_length() == c.len, "range", "writer/accessors", "start {} end {} len {}", w.start_position(), w.end_position(), w.range_length());
+    let mut model = vec![0xEEu8; FILE_LEN];
+    let mut rel = 0u64;
+    let mut total = 0u64;
+    let mut next = 1u8;
+    for (k, op) in c.ops.iter().enumerate() {
+        match op {
+            RgOp::Write(sz) => {
+                let chunk: Vec<u8> = (0..*sz).map(|i| next.wrapping_add(i as u8)).collect();
+                let m = must(w.write(&chunk), "write_err", "range_writer")?;
+                let room = (c.len - rel) as usize;
+                ensure!(m == (*sz).min(room), "range", "writer/history/accepted", "op #{k} write({sz}) at range offset {rel} of {} accepted {m} bytes, want {} (history {:?})", c.len, (*sz).min(room), &c.ops[..k]);
+                if m > 0 {
+                    let a = (c.off + rel) as usize;
+                    if model.len() < a + m {
+                        model.resize(a + m, 0);
+                    }
+                    model[a..a + m].copy_from_slice(&chunk[..m]);
+                }
+                rel += m as u64;
+                total += m as u64;
+                next = next.wrapping_add(m as u8);
+            }
+            RgOp::SeekStart(_) | RgOp::SeekCur(_) | RgOp::SeekEnd(_) => {
+                let (sf, target) = match op {
+                    RgOp::SeekStart(p) => (SeekFrom::Start(*p), *p as i64),
+                    RgOp::SeekCur(d) => (SeekFrom::Current(*d), rel as i64 + d),
+                    RgOp::SeekEnd(d) => (SeekFrom::End(*d), c.len as i64 + d),
+                    _ => unreachable!(),
+                };
+                let want = target.clamp(0, c.len as i64) as u64;
+                let p = must(w.seek(sf), "write_err", "range_writer/seek")?;
+                ensure!(p == want, "range", "writer/history/seek_position", "op #{k} seek({:?}) at range offset {rel} of a {}-byte range returned {p}, want {want} (history {:?})", sf, c.len, &c.ops[..k]);
+                rel = want;
+            }
+            _ => {}
+        }
+        ensure!(w.bytes_written() == total && w.current_position() == c.off + rel && w.remaining() == c.len - rel && w.is_at_end() == (rel == c.len), "range", "writer/history/counters", "after op #{k} {:?}: bytes_written {} current {} remaining {} — want {total}, {}, {}", op, w.bytes_written(), w.current_position(), w.remaining(), c.off + rel, c.len - rel);
+    }
+    must(w.flush(), "write_err", "range_writer")?;
+    let inner = w.into_inner().into_inner();
+    ensure!(inner == model, "range", "writer/history/content", "history {:?} on range ({}, {}): inner holds {} want {}", c.ops, c.off, c.len, brief(&inner), brief(&model));
+    Ok(if total == 0 { Outcome::trivial("nothing") } else { Outcome::pass(&format!("{}/{}", c.ctor, if c.ops.iter().any(|o| !matches!(o, RgOp::Write(_))) { "seek" } else { "plain" })) })
+}
+
+// ---------------------------------------------------------------------------------------------
 // MultiRangeReader
 
 #[derive(Serialize, Deserialize, Hash, Clone, Debug)]
 pub struct MrCase {
     ranges: Vec<(u64, u64)>,
     chunk: usize,
+    /// (coverage audit) 0 = all ranges given to the constructor; 1 = the last range is added with add_range() after
+    /// one read; 2 = after one read next_range() is called: the rest of the first range is skipped
+    #[serde(default)]
+    late: u8,
 }
 
 fn gen_mr(tier: Tier, f: &mut dyn FnMut(MrCase) -> bool) {
@@ -271,8 +503,15 @@ fn gen_mr(tier: Tier, f: &mut dyn FnMut(MrCase) -> bool) {
     }
     all_strings(&rs, 2, &mut |l| {
         for chunk in [1usize, 3, 64] {
-            if !f(MrCase { ranges: l.to_vec(), chunk }) {
+            if !f(MrCase { ranges: l.to_vec(), chunk, late: 0 }) {
                 return false;
+            }
+            if l.len() == 2 && chunk != 64 {
+                for late in [1u8, 2] {
+                    if !f(MrCase { ranges: l.to_vec(), chunk, late }) {
+                        return false;
+                    }
+                }
             }
         }
         true
@@ -288,6 +527,9 @@ fn run_mr(c: &MrCase) -> R {
     }
     let past = c.ranges.iter().any(|&(_, e)| e > n);
     let class = if past { "some_range_past_eof" } else { "ranges_inside" };
+    if c.late > 0 {
+        return run_mr_late(c, &data, class);
+    }
     let mut r = MultiRangeReader::new(Cursor::new(data.clone()), c.ranges.clone());
     if !past {
         ensure!(r.total_length() == want.len() as u64, "range", "multi/total_length", "total_length() = {}", r.total_length());
@@ -295,6 +537,42 @@ fn run_mr(c: &MrCase) -> R {
     let got = drain(&mut r, c.chunk, 400).map_err(|e| bad("read_err", class, e))?;
     ensure!(got == want, "range", format!("multi/{class}"), "ranges {:?} yielded {} want {}", c.ranges, brief(&got), brief(&want));
     Ok(if want.is_empty() { Outcome::trivial("empty") } else { Outcome::pass(class) })
+}
+
+fn run_mr_late(c: &MrCase, data: &[u8], class: &str) -> R {
+    let n = FILE_LEN as u64;
+    let (r0, r1) = (c.ranges[0], c.ranges[1]);
+    let seg = |r: (u64, u64)| data[r.0.min(n) as usize..r.1.min(n).max(r.0.min(n)) as usize].to_vec();
+    let mut rd = if c.late == 1 { MultiRangeReader::new(Cursor::new(data.to_vec()), vec![r0]) } else { MultiRangeReader::new(Cursor::new(data.to_vec()), vec![r0, r1]) };
+    ensure!(rd.current_range() == Some(r0), "range", "multi/current_range", "current_range() = {:?} before the first read", rd.current_range());
+    let mut buf = vec![0u8; c.chunk];
+    let m = rd.read(&mut buf).map_err(|e| bad("read_err", class, e.to_string()))?;
+    let first = seg(r0);
+    let mut want: Vec<u8>;
+    if c.late == 1 {
+        ensure!(buf[..m] == first[..m.min(first.len())] && m <= first.len(), "range", format!("multi/late/{class}"), "first read of range {:?} returned {}", r0, brief(&buf[..m]));
+        rd.add_range(r1.0, r1.1);
+        want = first[m..].to_vec();
+        want.extend(seg(r1));
+    } else {
+        // with both ranges known a read may already have moved on to the second range when the first is empty
+        if first.is_empty() {
+            let second = seg(r1);
+            ensure!(m <= second.len() && buf[..m] == second[..m], "range", format!("multi/late/{class}"), "first read returned {}", brief(&buf[..m]));
+            want = second[m..].to_vec();
+            // next_range() has nothing further to move to
+            let moved = rd.next_range();
+            ensure!(!moved, "range", "multi/next_range", "next_range() = true although the reader is in its last range");
+        } else {
+            ensure!(m <= first.len() && buf[..m] == first[..m], "range", format!("multi/late/{class}"), "first read of range {:?} returned {}", r0, brief(&buf[..m]));
+            let moved = rd.next_range();
+            ensure!(moved && rd.current_range() == Some(r1), "range", "multi/next_range", "next_range() = {moved}, current_range() = {:?}", rd.current_range());
+            want = seg(r1);
+        }
+    }
+    let rest = drain(&mut rd, c.chunk, 400).map_err(|e| bad("read_err", class, e))?;
+    ensure!(rest == want, "range", format!("multi/late/{class}"), "ranges {:?} (late = {}): after the first read of {m} bytes the rest reads {} want {}", c.ranges, c.late, brief(&rest), brief(&want));
+    Ok(Outcome::pass(&format!("late{}/{class}", c.late)))
 }
 
 // ---------------------------------------------------------------------------------------------
@@ -376,7 +654,7 @@ fn sb_cfg(name: &str, b: usize) -> StreamBufferConfig {
         enable_readahead: true,
         readahead_multiplier: 2,
     };
-    match name {
+    match name.split("/inner<=").next().unwrap() {
         "readahead" => {}
         "no-readahead" => c.enable_readahead = false,
         "bulk>=B" => c.bulk_read_threshold = b,
@@ -385,7 +663,54 @@ fn sb_cfg(name: &str, b: usize) -> StreamBufferConfig {
     }
     c
 }
-const SB_CFGS: &[&str] = &["readahead", "no-readahead", "bulk>=B", "fixed-capacity"];
+const SB_CFGS: &[&str] = &["readahead", "no-readahead", "bulk>=B", "fixed-capacity", "readahead/inner<=1", "no-readahead/inner<=3", "bulk>=B/inner<=1"];
+
+/// the inner stream of the buffered readers: a Cursor, or (coverage audit) a stream that hands out at most `k` bytes
+/// per `read` call, which `Read` allows and pipes / sockets / decompressors do
+pub enum Inner {
+    Full(Cursor<Vec<u8>>),
+    Short { data: Vec<u8>, pos: usize, k: usize },
+}
+impl Inner {
+    fn for_cfg(name: &str, data: Vec<u8>) -> Inner {
+        match name.split_once("/inner<=") {
+            Some((_, k)) => Inner::Short { data, pos: 0, k: k.parse().expect("k") },
+            None => Inner::Full(Cursor::new(data)),
+        }
+    }
+}
+impl Read for Inner {
+    fn read(&mut self, buf: &mut [u8]) -> std::io::Result<usize> {
+        match self {
+            Inner::Full(c) => c.read(buf),
+            Inner::Short { data, pos, k } => {
+                let n = buf.len().min(*k).min(data.len() - *pos);
+                buf[..n].copy_from_slice(&data[*pos..*pos + n]);
+                *pos += n;
+                Ok(n)
+            }
+        }
+    }
+}
+impl Seek for Inner {
+    fn seek(&mut self, to: SeekFrom) -> std::io::Result<u64> {
+        match self {
+            Inner::Full(c) => c.seek(to),
+            Inner::Short { data, pos, .. } => {
+                let t = match to {
+                    SeekFrom::Start(p) => p as i64,
+                    SeekFrom::Current(d) => *pos as i64 + d,
+                    SeekFrom::End(d) => data.len() as i64 + d,
+                };
+                if t < 0 {
+                    return Err(std::io::Error::new(std::io::ErrorKind::InvalidInput, "negative position"));
+                }
+                *pos = (t as usize).min(data.len());
+                Ok(t as u64)
+            }
+        }
+    }
+}
 
 #[derive(Serialize, Deserialize, Hash, Clone, Debug)]
 pub struct SrCase {
@@ -417,7 +742,7 @@ fn gen_sr(tier: Tier, f: &mut dyn FnMut(SrCase) -> bool) {
 
 fn run_sr(c: &SrCase) -> R {
     let src = source(c.n);
-    let mut r = must(StreamBufferedReader::with_config(Cursor::new(src.clone()), sb_cfg(&c.cfg, c.b)), "construct", "reader")?;
+    let mut r = must(StreamBufferedReader::with_config(Inner::for_cfg(&c.cfg, src.clone()), sb_cfg(&c.cfg, c.b)), "construct", "reader")?;
     ensure!(r.capacity() == c.b, "buffered", "capacity", "capacity() = {} for initial_capacity {}", r.capacity(), c.b);
     let mut pos = 0usize;
     for (k, &sz) in c.sizes.iter().enumerate() {
@@ -443,6 +768,12 @@ pub enum ROp {
     FillConsume(usize),
     SeekCur(i64),
     SeekStart(u64),
+    // (coverage audit, appended)
+    SeekEnd(i64),
+    /// read_bulk(k bytes)
+    Bulk(usize),
+    /// ensure_buffered(k)
+    Ensure(usize),
 }
 
 #[derive(Serialize, Deserialize, Hash, Clone, Debug)]
@@ -457,7 +788,7 @@ fn gen_sm(tier: Tier, f: &mut dyn FnMut(SmCase) -> bool) {
     let ns: &[usize] = if tier == Tier::Quick { &[0, 5, 40] } else { &[0, 1, 5, 9, 40] };
     for cfg in ["readahead", "no-readahead", "fixed-capacity"] {
         for b in [1usize, 2, 8] {
-            let ops = vec![ROp::Read(1), ROp::Read(b + 1), ROp::Simd(3), ROp::Byte, ROp::Slice(2), ROp::FillConsume(1), ROp::FillConsume(0), ROp::SeekCur(0), ROp::SeekCur(1), ROp::SeekStart(1)];
+            let ops = vec![ROp::Read(1), ROp::Read(b + 1), ROp::Simd(3), ROp::Byte, ROp::Slice(2), ROp::FillConsume(1), ROp::FillConsume(0), ROp::SeekCur(0), ROp::SeekCur(1), ROp::SeekStart(1), ROp::SeekCur(-1), ROp::SeekEnd(-2), ROp::Bulk(b + 1), ROp::Ensure(b + 1)];
             let depth = if tier == Tier::Quick { 3 } else { 4 };
             for &n in ns {
                 if !all_strings(&ops, depth, &mut |s| f(SmCase { cfg: cfg.to_string(), b, n, ops: s.to_vec() })) {
@@ -509,22 +840,133 @@ fn run_sm(c: &SmCase) -> R {
                 pos += take;
             }
             ROp::SeekCur(d) => {
-                let p = r.seek(SeekFrom::Current(*d)).map_err(|e| bad("read_err", "seek", e.to_string()))?;
                 let want = pos as i64 + d;
-                ensure!(p as i64 == want, "seek_position", "current", "op #{k} seek(Current({d})) at logical position {pos} returned {p}, want {want} (ops {:?})", c.ops);
-                pos = want as usize;
+                match r.seek(SeekFrom::Current(*d)) {
+                    Ok(p) => {
+                        ensure!(p as i64 == want, "seek_position", "current", "op #{k} seek(Current({d})) at logical position {pos} returned {p}, want {want} (ops {:?})", c.ops);
+                        pos = want as usize;
+                    }
+                    Err(e) => {
+                        // a position before the start is refused by the inner stream; nothing can be said about the position afterwards
+                        ensure!(want < 0, "read_err", "seek", "op #{k} seek(Current({d})) at logical position {pos}: {e}");
+                        return Ok(Outcome::pass("seek_before_start_refused"));
+                    }
+                }
             }
             ROp::SeekStart(p0) => {
                 let p = r.seek(SeekFrom::Start(*p0)).map_err(|e| bad("read_err", "seek", e.to_string()))?;
                 ensure!(p == *p0, "seek_position", "start", "seek(Start({p0})) returned {p}");
                 pos = *p0 as usize;
             }
+            ROp::SeekEnd(d) => {
+                let want = c.n as i64 + d;
+                match r.seek(SeekFrom::End(*d)) {
+                    Ok(p) => {
+                        ensure!(want >= 0 && p as i64 == want, "seek_position", "end", "op #{k} seek(End({d})) on {} bytes returned {p}, want {want}", c.n);
+                        pos = want as usize;
+                    }
+                    // a position before the start is refused by the inner stream; nothing can be said about the position afterwards
+                    Err(_) => {
+                        ensure!(want < 0, "read_err", "seek", "op #{k} seek(End({d})) on {} bytes failed", c.n);
+                        return Ok(Outcome::pass("seek_before_start_refused"));
+                    }
+                }
+            }
+            ROp::Bulk(sz) => {
+                let mut buf = vec![0xAAu8; *sz];
+                let m = r.read_bulk(&mut buf).map_err(|e| bad("read_err", format!("{}/{ctx}", c.cfg), format!("op #{k} {:?} at {pos}/{}: {e}", op, c.n)))?;
+                ensure!(m <= *sz && buf[..m] == src[at..(at + m).min(c.n)], "buffered", format!("wrong_bytes/{ctx}"), "op #{k} {:?} at {pos}: got {} want {}", op, brief(&buf[..m]), brief(&src[at..(at + m).min(c.n)]));
+                ensure!(m > 0 || *sz == 0 || pos >= c.n, "buffered", format!("premature_eof/{ctx}"), "op #{k} {:?} at {pos}/{} returned 0", op, c.n);
+                pos += m;
+            }
+            ROp::Ensure(sz) => {
+                // Err = the request exceeds a buffer that cannot grow: refused, nothing consumed
+                if let Ok(avail) = r.ensure_buffered(*sz) {
+                    ensure!(avail <= c.n - at && avail == r.buffer_usage(), "buffered", format!("ensure_buffered/{ctx}"), "op #{k} ensure_buffered({sz}) at {pos}/{} = {avail}, buffer_usage() = {}", c.n, r.buffer_usage());
+                }
+            }
+        }
+        if pos <= c.n {
+            ensure!(r.buffer_usage() <= c.n - pos && r.has_data_in_buffer() == (r.buffer_usage() > 0), "buffered", format!("buffer_usage/{ctx}"), "after op #{k} {:?} at {pos}/{}: buffer_usage() = {}", op, c.n, r.buffer_usage());
         }
     }
     let rest = drain(&mut r, 3, 400).map_err(|e| bad("read_err", format!("{}/{ctx}", c.cfg), e))?;
     let at = pos.min(c.n);
     ensure!(rest == src[at..], "buffered", format!("rest/{ctx}"), "after {:?} the rest is {} want {}", c.ops, brief(&rest), brief(&src[at..]));
     Ok(if c.n == 0 { Outcome::trivial("empty-source") } else { Outcome::pass(&format!("{}/{ctx}", c.cfg)) })
+}
+
+/// (coverage audit) read_simd_optimized / read / read_bulk with transfer sizes around the copy kernels' widths
+/// (8, 16, 32, 64 bytes, 4 KiB) through buffers that are smaller than, equal to and larger than the transfers
+#[derive(Serialize, Deserialize, Hash, Clone, Debug)]
+pub struct SsCase {
+    b: usize,
+    n: usize,
+    /// 0 = read_simd_optimized, 1 = Read::read, 2 = read_bulk with the bulk threshold at 64
+    api: u8,
+    sizes: Vec<usize>,
+}
+
+fn gen_ss(tier: Tier, f: &mut dyn FnMut(SsCase) -> bool) {
+    let pats: &[&[usize]] = &[
+        &[1, 2, 3, 4, 5, 6, 7],
+        &[8, 9, 15, 16, 17],
+        &[31, 32, 33],
+        &[63, 64, 65],
+        &[127, 128, 129, 1],
+        &[255, 256, 257],
+        &[4095, 4096, 4097],
+        &[9, 65, 3, 4097, 17, 33],
+        &[70_000],
+    ];
+    let ns: &[usize] = if tier == Tier::Quick { &[300, 20_000] } else { &[0, 1, 63, 300, 5000, 20_000, 150_000] };
+    for &b in &[8usize, 64, 100, 4096, 65536] {
+        for &n in ns {
+            for api in 0..3u8 {
+                for p in pats {
+                    if !f(SsCase { b, n, api, sizes: p.to_vec() }) {
+                        return;
+                    }
+                }
+            }
+        }
+    }
+}
+
+fn run_ss(c: &SsCase) -> R {
+    let src = big_source(c.n);
+    let mut cfg = sb_cfg("readahead", c.b);
+    if c.api == 2 {
+        cfg.bulk_read_threshold = 64;
+    }
+    let mut r = must(StreamBufferedReader::with_config(Cursor::new(src.clone()), cfg), "construct", "reader")?;
+    let api = ["read_simd_optimized", "read", "read_bulk"][c.api as usize];
+    let mut pos = 0usize;
+    let mut k = 0usize;
+    loop {
+        let sz = c.sizes[k % c.sizes.len()];
+        // canaries around the destination: a copy kernel must not write outside buf[..returned]
+        let mut buf = vec![0xA5u8; sz + 16];
+        let res = match c.api {
+            0 => r.read_simd_optimized(&mut buf[8..8 + sz]).map_err(|e| e.to_string()),
+            1 => r.read(&mut buf[8..8 + sz]).map_err(|e| e.to_string()),
+            _ => r.read_bulk(&mut buf[8..8 + sz]).map_err(|e| e.to_string()),
+        };
+        let m = res.map_err(|e| bad("read_err", api, format!("{api} #{k} of {sz} bytes at {pos}/{}: {e}", c.n)))?;
+        ensure!(m <= sz, "buffered", format!("{api}/return>len"), "{api} returned {m} for {sz}");
+        let class = format!("{api}/wrong_bytes/len{}", if sz < 16 { "<16" } else if sz < 64 { "<64" } else if sz <= 4096 { "<=4096" } else { ">4096" });
+        ensure!(buf[8..8 + m] == src[pos..pos + m], "buffered", class, "{api} #{k} ({sz} bytes, buffer {}) at {pos}: got {} want {}", c.b, brief(&buf[8..8 + m]), brief(&src[pos..pos + m]));
+        ensure!(buf[..8] == [0xA5; 8] && buf[8 + m..].iter().all(|&x| x == 0xA5), "buffered", format!("{api}/wrote_outside"), "{api} #{k} ({sz} bytes) at {pos}: bytes outside the {m} returned were modified");
+        if m == 0 {
+            ensure!(pos == c.n, "buffered", format!("{api}/premature_eof"), "{api} #{k} of {sz} at {pos}/{} returned 0", c.n);
+            break;
+        }
+        pos += m;
+        k += 1;
+        ensure!(k < 1_000_000, "buffered", "no_eof", "no EOF");
+    }
+    ensure!(r.total_read() == c.n as u64, "buffered", "total_read", "total_read() = {} of {}", r.total_read(), c.n);
+    Ok(if c.n == 0 { Outcome::trivial("empty") } else { Outcome::pass(&format!("{api}/B{}", c.b)) })
 }
 
 /// the library's own presets with sources straddling their thresholds
@@ -608,6 +1050,10 @@ pub enum WOp {
     Flush,
     SeekCur0,
     ZcWrite(usize),
+    /// (coverage audit) seek(Start(p)): later writes overwrite / extend from there
+    SeekStart(u64),
+    /// seek(End(0))
+    SeekEnd0,
 }
 
 #[derive(Serialize, Deserialize, Hash, Clone, Debug)]
@@ -621,7 +1067,7 @@ fn gen_sw(_t: Tier, f: &mut dyn FnMut(SwCase) -> bool) {
     for cfg in ["readahead", "bulk>=B"] {
         for b in [1usize, 2, 8] {
             let mut ops: Vec<WOp> = read_sizes(b).into_iter().map(WOp::Write).collect();
-            ops.extend([WOp::Byte, WOp::Flush, WOp::SeekCur0]);
+            ops.extend([WOp::Byte, WOp::Flush, WOp::SeekCur0, WOp::SeekStart(1), WOp::SeekEnd0]);
             if !all_strings(&ops, 4, &mut |s| f(SwCase { cfg: cfg.to_string(), b, ops: s.to_vec() })) {
                 return;
             }
@@ -631,20 +1077,35 @@ fn gen_sw(_t: Tier, f: &mut dyn FnMut(SwCase) -> bool) {
 
 fn run_sw(c: &SwCase) -> R {
     let mut w = must(StreamBufferedWriter::with_config(Cursor::new(Vec::new()), sb_cfg(&c.cfg, c.b)), "construct", "writer")?;
+    // the stream the inner Cursor<Vec> must end up with: bytes + write position (a seek beyond the end zero-fills on the next write)
     let mut model: Vec<u8> = Vec::new();
+    let mut at = 0usize;
+    let mut written = 0u64;
     let mut next = 1u8;
+    fn put(model: &mut Vec<u8>, at: &mut usize, bytes: &[u8]) {
+        if bytes.is_empty() {
+            return;
+        }
+        if model.len() < *at + bytes.len() {
+            model.resize(*at + bytes.len(), 0);
+        }
+        model[*at..*at + bytes.len()].copy_from_slice(bytes);
+        *at += bytes.len();
+    }
     for (k, op) in c.ops.iter().enumerate() {
         match op {
             WOp::Write(sz) => {
                 let chunk: Vec<u8> = (0..*sz).map(|i| next.wrapping_add(i as u8)).collect();
                 let m = must(w.write(&chunk), "write_err", &c.cfg)?;
                 ensure!(m <= *sz && (m > 0 || *sz == 0), "buffered", "write/return", "op #{k} write({sz}) returned {m}");
-                model.extend_from_slice(&chunk[..m]);
+                put(&mut model, &mut at, &chunk[..m]);
+                written += m as u64;
                 next = next.wrapping_add(m as u8);
             }
             WOp::Byte => {
                 must(w.write_byte_fast(next), "write_err", &c.cfg)?;
-                model.push(next);
+                put(&mut model, &mut at, &[next]);
+                written += 1;
                 next = next.wrapping_add(1);
             }
             WOp::Flush => {
@@ -653,15 +1114,26 @@ fn run_sw(c: &SwCase) -> R {
             }
             WOp::SeekCur0 => {
                 let p = must(w.seek(SeekFrom::Current(0)), "write_err", &c.cfg)?;
-                ensure!(p == model.len() as u64, "seek_position", "writer/current", "seek(Current(0)) = {p} after {} bytes", model.len());
+                ensure!(p == at as u64, "seek_position", "writer/current", "seek(Current(0)) = {p}, the stream position is {at}");
+            }
+            WOp::SeekStart(p0) => {
+                let p = must(w.seek(SeekFrom::Start(*p0)), "write_err", &c.cfg)?;
+                ensure!(p == *p0, "seek_position", "writer/start", "seek(Start({p0})) = {p}");
+                at = *p0 as usize;
+            }
+            WOp::SeekEnd0 => {
+                let p = must(w.seek(SeekFrom::End(0)), "write_err", &c.cfg)?;
+                ensure!(p == model.len() as u64, "seek_position", "writer/end", "seek(End(0)) = {p} after {} bytes (ops {:?})", model.len(), c.ops);
+                at = model.len();
             }
             WOp::ZcWrite(_) => {}
         }
-        ensure!(w.total_written() + w.buffer_usage() as u64 == model.len() as u64, "buffered", "writer/counters", "total_written {} + buffered {} != {}", w.total_written(), w.buffer_usage(), model.len());
+        ensure!(w.total_written() + w.buffer_usage() as u64 == written, "buffered", "writer/counters", "total_written {} + buffered {} != {} bytes accepted", w.total_written(), w.buffer_usage(), written);
     }
     let got = must(w.into_inner(), "write_err", &c.cfg)?.into_inner();
-    ensure!(got == model, "buffered", format!("writer/{}", c.cfg), "ops {:?}: inner holds {} want {}", c.ops, brief(&got), brief(&model));
-    Ok(if model.is_empty() { Outcome::trivial("nothing") } else { Outcome::pass(&format!("{}/B{}", c.cfg, c.b)) })
+    let seeks = c.ops.iter().any(|o| matches!(o, WOp::SeekStart(_) | WOp::SeekEnd0));
+    ensure!(got == model, "buffered", format!("writer/{}{}", c.cfg, if seeks { "/after_seek" } else { "" }), "ops {:?}: inner holds {} want {}", c.ops, brief(&got), brief(&model));
+    Ok(if model.is_empty() { Outcome::trivial("nothing") } else { Outcome::pass(&format!("{}/B{}{}", c.cfg, c.b, if seeks { "/seek" } else { "" })) })
 }
 
 // ---------------------------------------------------------------------------------------------
@@ -717,6 +1189,22 @@ fn gen_zr(tier: Tier, f: &mut dyn FnMut(ZrCase) -> bool) {
             }
         }
     }
+    // (coverage audit) skips longer than the 8 KiB scratch buffer of skip_bytes, from an empty and from a partly
+    // consumed buffer, followed by reads; ZeroCopyReader::new (64 KiB) and small capacities
+    for (cap, secure) in [(65536usize, false), (65536, true), (8, false), (10_000, false)] {
+        for n in [20_000usize, 200_000] {
+            for ops in [
+                vec![ZOp::Read(1), ZOp::Skip(8193), ZOp::Read(5), ZOp::Skip(8192), ZOp::Zc(3)],
+                vec![ZOp::Skip(16_385), ZOp::Peek(4), ZOp::Read(2)],
+                vec![ZOp::Peek(10), ZOp::Skip(9), ZOp::Skip(10_000), ZOp::Read(7)],
+                vec![ZOp::Zc(5), ZOp::Skip(1), ZOp::Skip(19_000), ZOp::Read(3)],
+            ] {
+                if !f(ZrCase { cap, n, secure, ops }) {
+                    return;
+                }
+            }
+        }
+    }
 }
 
 fn run_zr(c: &ZrCase) -> R {
@@ -724,6 +1212,8 @@ fn run_zr(c: &ZrCase) -> R {
     let inner = Cursor::new(src.clone());
     let mut r = if c.secure {
         must(ZeroCopyReader::with_secure_buffer(inner, c.cap), "construct", "zc_reader")?
+    } else if c.cap == 65536 {
+        must(ZeroCopyReader::new(inner), "construct", "zc_reader")?
     } else {
         must(ZeroCopyReader::with_capacity(inner, c.cap), "construct", "zc_reader")?
     };
@@ -791,6 +1281,9 @@ fn run_zr(c: &ZrCase) -> R {
 pub struct ZwCase {
     cap: usize,
     ops: Vec<WOp>,
+    /// (coverage audit) 0 = Vec; k > 0 = an inner writer that accepts at most k bytes per `write` call
+    #[serde(default)]
+    inner_k: usize,
 }
 
 fn gen_zw(_t: Tier, f: &mut dyn FnMut(ZwCase) -> bool) {
@@ -806,14 +1299,45 @@ fn gen_zw(_t: Tier, f: &mut dyn FnMut(ZwCase) -> bool) {
         ops.push(WOp::Flush);
         ops.sort_by_key(|o| format!("{:?}", o));
         ops.dedup();
-        if !all_strings(&ops, 4, &mut |s| f(ZwCase { cap, ops: s.to_vec() })) {
+        if !all_strings(&ops, 4, &mut |s| f(ZwCase { cap, ops: s.to_vec(), inner_k: 0 })) {
             return;
+        }
+        if cap <= 8 {
+            for inner_k in [1usize, 3] {
+                if !all_strings(&ops, 3, &mut |s| f(ZwCase { cap, ops: s.to_vec(), inner_k })) {
+                    return;
+                }
+            }
         }
     }
 }
 
+/// the inner writers of the ZeroCopyWriter cases
+trait Sink: Write {
+    fn bytes(&self) -> &Vec<u8>;
+}
+impl Sink for Vec<u8> {
+    fn bytes(&self) -> &Vec<u8> {
+        self
+    }
+}
+impl Sink for ChunkedW {
+    fn bytes(&self) -> &Vec<u8> {
+        &self.data
+    }
+}
+
 fn run_zw(c: &ZwCase) -> R {
-    let mut w = must(ZeroCopyWriter::with_capacity(Vec::new(), c.cap), "construct", "zc_writer")?;
+    if c.inner_k > 0 {
+        run_zw_on(must(ZeroCopyWriter::with_capacity(ChunkedW { data: Vec::new(), k: c.inner_k }, c.cap), "construct", "zc_writer")?, c)
+    } else if c.cap == 65536 {
+        run_zw_on(must(ZeroCopyWriter::new(Vec::new()), "construct", "zc_writer")?, c)
+    } else {
+        run_zw_on(must(ZeroCopyWriter::with_capacity(Vec::new(), c.cap), "construct", "zc_writer")?, c)
+    }
+}
+
+fn run_zw_on<W: Sink>(mut w: ZeroCopyWriter<W>, c: &ZwCase) -> R {
     let mut model: Vec<u8> = Vec::new();
     let mut next = 1u8;
     for (k, op) in c.ops.iter().enumerate() {
@@ -843,14 +1367,15 @@ fn run_zw(c: &ZwCase) -> R {
             }
             WOp::Flush => {
                 must(w.flush(), "write_err", "zc_writer")?;
-                ensure!(w.get_ref() == &model, "zero_copy", "writer/flush", "after flush inner holds {} want {}", brief(w.get_ref()), brief(&model));
+                ensure!(w.get_ref().bytes() == &model, "zero_copy", "writer/flush", "after flush inner holds {} want {}", brief(w.get_ref().bytes()), brief(&model));
             }
             _ => {}
         }
     }
     let got = must(w.into_inner(), "write_err", "zc_writer")?;
-    ensure!(got == model, "zero_copy", "writer/content", "ops {:?} (cap {}): inner holds {} want {}", c.ops, c.cap, brief(&got), brief(&model));
-    Ok(if model.is_empty() { Outcome::trivial("nothing") } else { Outcome::pass(&format!("cap{}", c.cap)) })
+    let got = got.bytes();
+    ensure!(got == &model, "zero_copy", if c.inner_k > 0 { "writer/content/inner_makes_short_writes" } else { "writer/content" }, "ops {:?} (cap {}, inner accepts {} bytes per call): inner holds {} want {}", c.ops, c.cap, if c.inner_k == 0 { "all".to_string() } else { c.inner_k.to_string() }, brief(got), brief(&model));
+    Ok(if model.is_empty() { Outcome::trivial("nothing") } else { Outcome::pass(&format!("cap{}{}", c.cap, if c.inner_k > 0 { "/short-inner" } else { "" })) })
 }
 
 // ---------------------------------------------------------------------------------------------
@@ -1131,19 +1656,37 @@ pub fn register(reg: &mut Registry) {
         },
         run_rr_di,
     ));
-    reg.add(fam("MultiRangeReader", "all lists of <=2 ranges (start<=end) over points {0,1,5,11,12,14} (thorough: 9 points) of a 12-byte source x read chunk {1,3,64}", gen_mr, run_mr));
+    reg.add(fam(
+        "RangeReader/histories",
+        "2 seeking constructors x ranges (off,len) in {(3,6),(0,12),(8,9: reaches past the 12-byte source),(5,0)} x every sequence of <=3 (thorough 4) operations on one reader from {read(1|4), seek(Start(0|2)), seek(Current(-1|2)), seek(End(-1|1)), reset, seek_in_range(1), DataInput::read_u16, DataInput::skip(2)}; after every operation current_position/position/remaining/is_at_end; at the end the rest of the range is read",
+        gen_rgr,
+        run_rgr,
+    ));
+    reg.add(fam(
+        "RangeWriter/histories",
+        "ranges (off,len) in {(3,5),(0,12),(10,5: extends the 12-byte target)} x every sequence of <=4 (thorough 5) operations on one writer from {write(1|3|7), seek(Start(0|2)), seek(Current(-1|2)), seek(End(-1|0))} (range::writer); write-only sequences for RangeWriter::new / with_range over a pre-positioned target; accepted counts, counters after every operation, final content (overwrites after seeking back)",
+        gen_rgw,
+        run_rgw,
+    ));
+    reg.add(fam("MultiRangeReader", "all lists of <=2 ranges (start<=end) over points {0,1,5,11,12,14} (thorough: 9 points) of a 12-byte source x read chunk {1,3,64}; coverage audit: for two ranges and chunk 1|3 additionally the second range added with add_range() after the first read, and next_range() after the first read", gen_mr, run_mr));
     reg.add(fam("RangeWriter", "every (offset 0..=13, len 0..=13) over a 12-byte 0xEE-filled Cursor<Vec> x payload length {0,1,5,12,20} x write chunk {1,3,100}: accepted count, counters, final content", gen_rw, run_rw));
     reg.add(fam(
         "StreamBufferedReader/reads",
-        "source of n bytes (quick n in {0,1,2,3,7,8,9,16,17,40}, thorough 0..=40) read through every sequence of <=4 (thorough <=5) Read::read sizes from {0,1,2,7,B-1,B,B+1}, then drained; buffer size B in {1,2,8} x 4 configs (read-ahead x2, no read-ahead, bulk bypass at >=B, capacity fixed at B)",
+        "source of n bytes (quick n in {0,1,2,3,7,8,9,16,17,40}, thorough 0..=40) read through every sequence of <=4 (thorough <=5) Read::read sizes from {0,1,2,7,B-1,B,B+1}, then drained; buffer size B in {1,2,8} x 4 configs (read-ahead x2, no read-ahead, bulk bypass at >=B, capacity fixed at B) + 3 configs over an inner stream that hands out at most 1 or 3 bytes per call",
         gen_sr,
         run_sr,
     ));
     reg.add(fam(
         "StreamBufferedReader/mixed",
-        "n in {0,5,40} (thorough +1,9) x B in {1,2,8} x 3 configs x every sequence of <=3 (thorough 4) operations from {read(1), read(B+1), read_simd_optimized(3), read_byte_fast, read_slice(2), fill_buf+consume(1|0), seek(Current(0|1)), seek(Start(1))}, then drained",
+        "n in {0,5,40} (thorough +1,9) x B in {1,2,8} x 3 configs x every sequence of <=3 (thorough 4) operations from {read(1), read(B+1), read_simd_optimized(3), read_byte_fast, read_slice(2), fill_buf+consume(1|0), seek(Current(0|1)), seek(Start(1)); coverage audit: seek(Current(-1)), seek(End(-2)), read_bulk(B+1), ensure_buffered(B+1)}, then drained",
         gen_sm,
         run_sm,
+    ));
+    reg.add(fam(
+        "StreamBufferedReader/transfer_sizes",
+        "read_simd_optimized, Read::read and read_bulk (threshold 64) x buffer size B in {8,64,100,4096,65536} x source {300, 20 000} (thorough 0..150 000) x 9 cyclic transfer-size patterns around 8/16/32/64/128/256/4096 bytes and one 70 000-byte transfer, into a destination with canary bytes on both sides",
+        gen_ss,
+        run_ss,
     ));
     reg.add(fam(
         "StreamBuffered/presets",
@@ -1153,17 +1696,17 @@ pub fn register(reg: &mut Registry) {
     ));
     reg.add(fam(
         "StreamBufferedWriter",
-        "B in {1,2,8} x 2 configs (buffered, bulk bypass at >=B) x every sequence of <=4 operations from {write(0|1|2|7|B-1|B|B+1), write_byte_fast, flush, seek(Current(0))} over Cursor<Vec>; counters after each step, content after flush and into_inner",
+        "B in {1,2,8} x 2 configs (buffered, bulk bypass at >=B) x every sequence of <=4 operations from {write(0|1|2|7|B-1|B|B+1), write_byte_fast, flush, seek(Current(0)); coverage audit: seek(Start(1)) followed by overwriting writes, seek(End(0))} over Cursor<Vec>; counters after each step, content after flush and into_inner",
         gen_sw,
         run_sw,
     ));
     reg.add(fam(
         "ZeroCopyReader",
-        "capacity C in {1,2,8} x source n in {0,9,40} (thorough +1,8,17) x every sequence of <=3 (thorough 4) operations from {read(0|1|C|C+1), read_optimized/peek/zc_read+advance (1|C|C+1), skip_bytes(1|C+1), zc_ensure(C+1)}, then drained; plus secure-pool 64 KiB buffer scripts over sources up to 200 000 bytes",
+        "capacity C in {1,2,8} x source n in {0,9,40} (thorough +1,8,17) x every sequence of <=3 (thorough 4) operations from {read(0|1|C|C+1), read_optimized/peek/zc_read+advance (1|C|C+1), skip_bytes(1|C+1), zc_ensure(C+1)}, then drained; plus secure-pool 64 KiB buffer scripts over sources up to 200 000 bytes; coverage audit: scripts with skip_bytes of 8192/8193/10 000/16 385/19 000 bytes between reads for ZeroCopyReader::new, the secure buffer and capacities 8 and 10 000",
         gen_zr,
         run_zr,
     ));
-    reg.add(fam("ZeroCopyWriter", "capacity in {1,2,8,65536} x every sequence of <=4 operations from {write(k), zc_ensure_write+zc_write+zc_commit(k), flush}, k in {0,1,c/2,c-1,c,c+1} (c = min(cap,8)); content after flush and into_inner", gen_zw, run_zw));
+    reg.add(fam("ZeroCopyWriter", "capacity in {1,2,8,65536} x every sequence of <=4 operations from {write(k), zc_ensure_write+zc_write+zc_commit(k), flush}, k in {0,1,c/2,c-1,c,c+1} (c = min(cap,8)); content after flush and into_inner; coverage audit: the same with sequences of <=3 over an inner writer that accepts at most 1 or 3 bytes per call; capacity 65536 through ZeroCopyWriter::new", gen_zw, run_zw));
     reg.add(fam("ZeroCopyBuffer", "capacity in {0,1,4,8} x every sequence of <=4 (thorough 5) operations from {fill_from(reader giving <=1|3|100), drain_to(writer taking <=1|100), zc_write+commit(2), zc_read+advance(1|3), compact, zc_ensure_write(3), reset} against a byte FIFO", gen_zb, run_zb));
     reg.add(fam("MmapZeroCopyReader", "file of {0,1,12} bytes x every sequence of <=3 operations from {read(0|1|5|13), zc_read+advance(1|12|13), set_position(0|7|13)}", gen_mz, run_mz));
     reg.add(fam("VectoredIO", "read_vectored/write_vectored x inner stream transferring at most {unlimited,1,2,3} bytes per call x source {0,1,4,20} bytes x every list of <=3 buffers of size {0,1,2,5}: the first `returned` bytes of the concatenated buffers are the stream's next bytes", gen_vc, run_vc));
